@@ -278,6 +278,82 @@ def run(ctx: fw.Ctx):
     # wrapper (a literal `with` environment) are C10's model: those documents go to the oracle only.
     ec.correspond(ctx, [h for h in hists if not str(h.info.get("wrapper")).startswith("with-lit")])
     observe(ctx, hists)
+    call_inherit(ctx)
+
+
+def call_inherit_docs():
+    """`set src.version V` where `src = fetch { inherit version; … }`: the path ends in a call whose
+    argument inherits the leaf; the tool writes to the definition the clause inherits from
+    (cli/manipulations.py:_resolve_inherited_binding) — a reference through an inherit clause"""
+    calls = ["fetch {\n    inherit version;\n    hash = \"h\";\n  }", "pkgs.fetch {\n    inherit version rev;\n  }",
+             "f {\n    k = 1;\n    inherit (lib) x;\n    inherit version;\n  }"]
+    shapes = [
+        ("set-sibling", "{\n  version = \"1\";\n  rev = \"r\";\n  src = {C};\n}"),
+        ("rec-sibling", "rec {\n  version = \"1\";\n  rev = \"r\";\n  src = {C};\n}"),
+        ("let", "let\n  version = \"1\";\n  rev = \"r\";\nin\n{\n  src = {C};\n}"),
+        ("let-shadow", "let\n  version = \"0\";\nin\nlet\n  version = \"1\";\n  rev = \"r\";\nin\n{\n  src = {C};\n}"),
+        ("let-and-sibling", "let\n  version = \"0\";\nin\n{\n  version = \"1\";\n  src = {C};\n}"),
+        ("lambda-let", "{ pkgs }:\nlet\n  version = \"1\";\n  rev = \"r\";\nin\n{\n  src = {C};\n}"),
+        ("unbound", "{\n  other = 1;\n  src = {C};\n}"),
+    ]
+    for sname, shape in shapes:
+        for ci, call in enumerate(calls):
+            for leaf in ("version", "rev", "hash", "x", "zz"):
+                yield sname, ci, shape.replace("{C}", call) + "\n", "src." + leaf, leaf
+
+
+def call_inherit(ctx: fw.Ctx):
+    from ..layout import leaves_of
+
+    for sname, ci, text, path, leaf in call_inherit_docs():
+        h = ec.run_real(text, [("set", path, '"NEW"')], {"wrapper": "call-inherit"})
+        r = h.recs[0] if h.recs else None
+        if r is None:
+            continue
+        root = cstread.ts_parse(text)
+        tgt = cstread.find_target(root)
+        if tgt is None or root.has_error:
+            continue
+        # the inherit clause that mentions the leaf inside the call argument of `src`
+        clause = None
+        for b in (bset(tgt).named_children if bset(tgt) is not None else []):
+            if b.type == "binding" and b.child_by_field_name("attrpath").text.decode() == "src":
+                val = b.child_by_field_name("expression")
+                arg = val.child_by_field_name("argument") if val.type == "apply_expression" else None
+                if arg is not None and arg.type in ("attrset_expression", "rec_attrset_expression"):
+                    hit = binding_named(bset(arg), leaf)
+                    if hit and hit[0] == "inherit":
+                        clause = hit
+        ctx.case({"doc": text, "path": path, "shape": sname, "inherits": clause is not None}, clause is not None)
+        ctx.count("call-inherit:" + ("inherited" if clause else "not-inherited") + ":" + r.result)
+        key = {"clause": "call-inherit", "shape": sname}
+        inp = {"doc": text, "ops": [["set", path, '"NEW"']], "output": r.out}
+        if clause is None:
+            # the leaf is not inherited by the call argument: the path runs through a non-set, the edit
+            # cannot be applied (C05/C08) and nothing may change
+            if r.result == "ok":
+                ctx.fail({**key, "outcome": "accepted-not-inherited"}, inp,
+                         f"set {path!r} on {text!r} succeeded although the call argument does not inherit {leaf!r}: {r.out!r}")
+            continue
+        res = finish(clause, leaf, 0)
+        if res[0] != "binding":
+            ctx.count("call-inherit:oracle-" + res[0])
+            if r.result == "ok" and res[0] == "unbound":
+                ctx.fail({**key, "outcome": "accepted-unbound"}, inp,
+                         f"set {path!r} succeeded although {leaf!r} is bound nowhere: {r.out!r}")
+            continue
+        if r.result != "ok":
+            ctx.fail({**key, "outcome": "refused", "binder": binder_kind(res)}, inp,
+                     f"set {path!r} on {text!r} was refused ({r.exc}) although the argument inherits {leaf!r} from a binding of the document")
+            continue
+        tgtv = res[1].child_by_field_name("expression")
+        bb = text.encode()
+        want = (bb[:tgtv.start_byte] + b'"NEW"' + bb[tgtv.end_byte:]).decode()
+        tw = [t for (_k, t, _s, _e) in leaves_of(want)[0]]
+        to = [t for (_k, t, _s, _e) in leaves_of(r.out)[0]]
+        if tw != to:
+            ctx.fail({**key, "outcome": "wrong-binding", "binder": binder_kind(res)}, {**inp, "expected": want},
+                     f"set {path!r} through `inherit {leaf};` of the call argument on {text!r}: got {r.out!r}, expected {want!r}")
 
 
 def search(ctx: fw.Ctx):
